@@ -106,6 +106,10 @@ Definition t_minimalMessageWidth : Z :=
   36.
 Definition t_levelOutputWidth : Z :=
   3.
+Definition t_hex : bytes :=
+  [x30;x31;x32;x33;x34;x35;x36;x37;x38;x39;x61;x62;x63;x64;x65;x66].
+Definition t_safeSet : list (Z * bool) :=
+  [(32, true); (33, true); (34, false); (35, true); (36, true); (37, true); (38, true); (39, true); (40, true); (41, true); (42, true); (43, true); (44, true); (45, true); (46, true); (47, true); (48, true); (49, true); (50, true); (51, true); (52, true); (53, true); (54, true); (55, true); (56, true); (57, true); (58, true); (59, true); (60, true); (61, true); (62, true); (63, true); (64, true); (65, true); (66, true); (67, true); (68, true); (69, true); (70, true); (71, true); (72, true); (73, true); (74, true); (75, true); (76, true); (77, true); (78, true); (79, true); (80, true); (81, true); (82, true); (83, true); (84, true); (85, true); (86, true); (87, true); (88, true); (89, true); (90, true); (91, true); (92, false); (93, true); (94, true); (95, true); (96, true); (97, true); (98, true); (99, true); (100, true); (101, true); (102, true); (103, true); (104, true); (105, true); (106, true); (107, true); (108, true); (109, true); (110, true); (111, true); (112, true); (113, true); (114, true); (115, true); (116, true); (117, true); (118, true); (119, true); (120, true); (121, true); (122, true); (123, true); (124, true); (125, true); (126, true); (127, true)].
 Definition t_unitMap : list (bytes * Z) :=
   [([x6e;x73], 1); ([x75;x73], 1000); ([xc2;xb5;x73], 1000); ([xce;xbc;x73], 1000); ([x6d;x73], 1000000); ([x73], 1000000000); ([x6d], 60000000000); ([x68], 3600000000000); ([x64], 86400000000000)].
 Definition t_shortDurBufSize : Z := 40.
